@@ -61,7 +61,10 @@ RULE = ("per decoder: every byte string up to length k over the decoder's dispat
         "(length bytes, header counts, compression pointers incl. self / forward / cyclic, truncation, "
         "nesting depth); discovery: 1..4 well-formed devices x one hostile host (garbage datagrams, pointer "
         "loops, TXT values on which handlers / device_info / service_info raise) x multicast and unicast "
-        "scanner; every TXT key read by a protocol module x near-match strings of every extracted regex (in a child "
+        "scanner; ~150 well-formed DNS messages with hostile record CONTENT (PTR/SRV targets and owners that are not "
+        "instance/host/type names, ports 0/65535, TXT without '=', empty / 1- / 2-label names, records owned by the bare "
+        "type, mismatched record types, instance names the handlers split) from a host that answers every unicast query; "
+        "every TXT key read by a protocol module x near-match strings of every extracted regex (in a child "
         "process, wall-clock budget). non-trivial = the decoder raised, or looped more than once, or a hostile host was present; "
         "distinct = (decoder, bytes) resp. (mode, devices, hostile payload, order)")
 ASSUMPTIONS = [
@@ -994,7 +997,7 @@ def child_scan(task):
     out = {"status": "ok", "error": res["error"], "want": repr(snapshot(ref)), "got": repr(snapshot(res, only=addrs)),
            "want_empty": not snapshot(ref) or isinstance(snapshot(ref), str),
            "returned": [str(c.address) for c in res["configs"]], "snap": shown["snap"], "line": None}
-    if not res["error"]:
+    if not res["error"] and not any(d.get("content") for d in desc["dgrams"]):
         from harness import c12
         mode = desc["mode"]
         mdesc = dict(desc, dgrams=[d for d in desc["dgrams"] if not (mode == "u" and "raw" in d)])
@@ -1215,6 +1218,115 @@ def hostile_payloads(rng):
     return out
 
 
+def pack_content(tag, records, mode):
+    """A structurally valid DNS response: PTR records as answers, the rest as additional records.
+    records = [(owner labels, qtype, rdata)], rdata = ('name', labels) | ('srv', prio, weight, port, labels) |
+    ('raw', bytes).  Names are label lists (`qname_encode` sequence API: any label content, 0..n labels)."""
+    from pyatv.core import mdns
+    from pyatv.support import dns
+    from harness import c12
+    questions = b""
+    nqd = 0
+    if mode == "u":
+        queries = mdns.create_service_queries(c12.make_scanner(None).services, dns.QueryType.PTR)
+        qs = dns.DnsMessage().unpack(queries[tag % len(queries)]).questions
+        questions = b"".join(bytes(q.pack()) for q in qs)
+        nqd = len(qs)
+
+    def rdata(spec):
+        if spec[0] == "name":
+            return bytes(dns.qname_encode(list(spec[1])))
+        if spec[0] == "srv":
+            return struct.pack(">3H", spec[1], spec[2], spec[3]) + bytes(dns.qname_encode(list(spec[4])))
+        return spec[1]
+    answers = [r for r in records if r[1] == 12]
+    others = [r for r in records if r[1] != 12]
+    out = struct.pack(">6H", 0x35FF if mode == "u" else tag, 0x8400, nqd, len(answers), 0, len(others)) + questions
+    for owner, qtype, spec in answers + others:
+        rd = rdata(spec)
+        out += bytes(dns.qname_encode(list(owner))) + struct.pack(">2HIH", qtype, 0x8001, 120, len(rd)) + rd
+    return out
+
+
+def content_payloads():
+    """Hostile record CONTENT in well-formed messages, one entry per place where the scan code indexes, splits
+    or unpacks what a record says (ServiceParser.add_message/parse, datagram_received, _service_discovered, the
+    protocol handlers' use of the instance name, get_unique_id):
+      PTR targets that are not instance names · PTR owners that are not service types · SRV targets that are
+      not host names, ports 0 / 65535 · TXT without '=', empty, key-less, non-ASCII · empty names, names of one or
+      two labels · records owned by the bare service type · record types that do not fit the owner · A records
+      in odd places · instance names the handlers split ('@', ' ')."""
+    A, P, T, S = 1, 12, 16, 33
+    air = ["_airplay", "_tcp", "local"]
+    comp = ["_companion-link", "_tcp", "local"]
+    raop = ["_raop", "_tcp", "local"]
+    sleep = ["_sleep-proxy", "_udp", "local"]
+    info = ["_device-info", "_tcp", "local"]
+    host = ["evil", "local"]
+    addr = ("raw", bytes([10, 0, 0, BAD_ADDR]))
+    txt = lambda *items: ("raw", b"".join(bytes([len(i)]) + i for i in items))
+    inst = lambda name, t: [name] + t
+
+    def service(t, name, port=7100, target=host, props=(b"deviceid=EE:EE:EE:00:00:09",), with_ptr=True, with_a=True):
+        recs = [(inst(name, t), S, ("srv", 0, 0, port, target)), (inst(name, t), T, txt(*props))]
+        if with_ptr:
+            recs.insert(0, (t, P, ("name", inst(name, t))))
+        if with_a:
+            recs.append((target, A, addr))
+        return recs
+    out = []
+    # PTR targets
+    for label, target in [("host-name", host), ("root", []), ("one-label", ["x"]), ("two-labels", ["a", "b"]),
+                          ("tcp-local", ["_tcp", "local"]), ("the-type-itself", air), ("other-type", comp),
+                          ("dotted-instance", ["Mr. Smith's TV"] + air), ("long-label", ["a" * 63] + air),
+                          ("instance-no-domain", ["Evil", "_airplay", "_tcp"]), ("udp", ["Evil", "_airplay", "_udp", "local"])]:
+        out.append(("ptr-target-" + label, [(air, P, ("name", target))]))
+        out.append(("ptr-target-" + label + "+service", [(air, P, ("name", target))] + service(comp, "Evil")))
+    # PTR owners
+    for label, owner in [("one-label", ["_x"]), ("underscore", ["_"]), ("two-labels", ["_airplay", "_tcp"]),
+                         ("udp", ["_airplay", "_udp", "local"]), ("instance", inst("Evil", air)), ("root", []), ("host", host)]:
+        out.append(("ptr-owner-" + label, [(owner, P, ("name", inst("Evil", air)))] + service(air, "Evil", with_ptr=False)))
+    # SRV
+    for label, port, target in [("port-0", 0, host), ("port-65535", 65535, host), ("target-root", 7100, []),
+                                ("target-one-label", 7100, ["x"]), ("target-type", 7100, air),
+                                ("target-self", 7100, inst("Evil", air)), ("target-unknown-host", 7100, ["nobody", "local"])]:
+        out.append(("srv-" + label, service(air, "Evil", port=port, target=target) + [(host, A, addr)]))
+    out.append(("srv-owned-by-type", [(air, S, ("srv", 0, 0, 7100, host)), (host, A, addr)]))
+    out.append(("srv-owned-by-host", [(host, S, ("srv", 0, 0, 7100, host)), (host, A, addr)]))
+    out.append(("srv-owned-by-root", [([], S, ("srv", 0, 0, 7100, host)), (host, A, addr)]))
+    out.append(("srv-twice", service(air, "Evil") + [(inst("Evil", air), S, ("srv", 1, 1, 1, ["x"]))]))
+    # TXT
+    for label, props in [("no-equals", (b"abc",)), ("empty-record", ()), ("empty-string", (b"",)), ("keyless", (b"=v",)),
+                         ("only-equals", (b"=",)), ("non-ascii-key", (b"\xff\xfe=1",)), ("non-ascii-flag", (b"\xff\xfe",)),
+                         ("non-utf8-value", (b"deviceid=\xff\xfe\xfd",)), ("nul", (b"\x00",)), ("many-equals", (b"a=b=c=d",)),
+                         ("255", (b"k=" + b"v" * 253,)), ("duplicate-keys", (b"model=A", b"MODEL=B", b"model"))]:
+        for t, name in ((air, "Evil"), (comp, "Evil")):
+            out.append(("txt-%s-%s" % (label, t[0]), service(t, name, props=props)))
+    for label, owner in [("bare-type", air), ("bare-type-companion", comp), ("one-label", ["x"]), ("two-labels", ["x", "local"]),
+                         ("root", []), ("host", host), ("device-info-type", info), ("sleep-proxy-type", sleep)]:
+        out.append(("txt-owned-by-" + label, [(owner, T, txt(b"model=J105aAP", b"odd"))]))
+        out.append(("txt-owned-by-" + label + "+service", [(owner, T, txt(b"model=J105aAP"))] + service(air, "Evil")))
+    # A records and mismatched types
+    out.append(("a-link-local-only", service(air, "Evil", with_a=False) + [(host, A, ("raw", bytes([169, 254, 0, 9])))]))
+    out.append(("a-owned-by-instance", service(air, "Evil", with_a=False) + [(inst("Evil", air), A, addr)]))
+    out.append(("a-owned-by-type", [(air, A, addr)]))
+    out.append(("a-owned-by-root", [([], A, addr)]))
+    out.append(("a-many", service(air, "Evil") + [(host, A, ("raw", bytes([10, 0, 0, 200 + i]))) for i in range(4)]))
+    for qtype in (0, 2, 28, 41, 47, 255, 65535):
+        out.append(("type-%d-owned-by-instance" % qtype, service(air, "Evil") + [(inst("Evil", air), qtype, ("raw", b"\x01\x02"))]))
+        out.append(("type-%d-owned-by-type" % qtype, [(air, qtype, ("raw", b""))]))
+    out.append(("ptr-owned-by-instance", service(air, "Evil") + [(inst("Evil", air), P, ("name", host))]))
+    out.append(("ptr-chain", [(air, P, ("name", comp)), (comp, P, ("name", air))]))
+    # instance names the handlers take apart
+    for label, t, name in [("raop-no-at", raop, "Evil"), ("raop-many-at", raop, "A@B@C"), ("raop-only-at", raop, "@"),
+                           ("raop-at-end", raop, "EEEEEE000009@"), ("sleep-proxy-no-space", sleep, "NoSpace"),
+                           ("sleep-proxy", sleep, "70-35-60-63.1 Evil"), ("device-info", info, "Evil"),
+                           ("space-name", air, " "), ("dot-name", air, "a.b.c"), ("long-name", comp, "n" * 63)]:
+        out.append(("instance-" + label, service(t, name, props=(b"model=AppleTV6,2", b"tp=UDP"))))
+        out.append(("instance-" + label + "-port-0", service(t, name, port=0, props=(b"model=AppleTV6,2",))))
+    return [("content:" + label, [("wire", recs)]) for label, recs in out]
+
+
 def good_devices(rng, n):
     from harness import c12
     devs = []
@@ -1257,13 +1369,21 @@ def build_case(rng, mode, devs, payload):
             # the fake unicast transport stops a host's feed at the first exception: raw datagrams last
             specs.sort(key=lambda s: s[0] == "raw")
             nq = len(mdns.create_service_queries(c12.make_scanner(None).services, dns.QueryType.PTR))
-            while len([s for s in specs if s[0] == "recs"]) < nq and any(s[0] == "recs" for s in specs):
+            wires = [s for s in specs if s[0] == "wire"]
+            if wires:
+                # structurally valid messages with hostile record content: the host answers EVERY query (content
+                # first, then empty answers), so its protocol completes and `get_response` parses what it collected
+                specs = wires + [("recs", [])] * max(0, nq - len(wires)) + [s for s in specs if s[0] == "raw"]
+            while len([s for s in specs if s[0] == "recs"]) < nq and any(s[0] == "recs" for s in specs) and not wires:
                 specs.insert(0, ("recs", []))
             hosts = hosts + [BAD_ADDR]
         for j, (kind, body) in enumerate(specs):
             d = {"src": BAD_ADDR, "tag": 50 + j if mode == "m" else j, "recs": body if kind == "recs" else []}
             if kind == "raw":
                 d["raw"] = body.hex()
+            if kind == "wire":
+                d["raw"] = pack_content(j if mode == "u" else 50 + j, body, mode).hex()
+                d["content"] = True          # decodes fine: outside the model's garbage = empty datagram reading
             bad.append(d)
         if mode == "m":
             for d in bad:
@@ -1286,7 +1406,13 @@ def real_scan(desc):
     old = signal.signal(signal.SIGALRM, _on_alarm)
     signal.setitimer(signal.ITIMER_REAL, SCAN_WATCHDOG_S)
     try:
-        res, shown = case.real(order)
+        if any(d.get("content") for d in desc["dgrams"]):
+            # record content outside c12's numbering tables: only the real objects are looked at (oracle)
+            res = c12.run_real(case.mode, case.protoset, case.hosts,
+                               [(desc["dgrams"][i]["src"], case.wire[i]) for i in order])
+            shown = {"resp": None, "raw": None, "snap": None}
+        else:
+            res, shown = case.real(order)
     except Hang:
         STUCK_SCANS.append(1)
         res, shown = {"error": "Hang", "configs": [], "responses": [], "services": None}, {"resp": None, "raw": None, "snap": "error:Hang"}
@@ -1338,6 +1464,8 @@ def string_payloads(ctx, rng, strings, culprits=()):
 def run_discovery(ctx, child, strings, culprits=()):
     rng = ctx.rng.fork("discovery")
     payloads = string_payloads(ctx, rng.fork("strings"), strings, culprits) + hostile_payloads(rng)
+    contents = content_payloads()
+    ctx.notes["hostile_record_contents"] = len(contents)
     lines, pending = [], []
     stuck = 0
     for mode in ("m", "u"):
@@ -1345,7 +1473,13 @@ def run_discovery(ctx, child, strings, culprits=()):
             reps = ctx.scale(1, 3)
             for rep in range(reps):
                 devs = good_devices(rng.fork(mode, ndev, rep), ndev)
-                for payload in payloads:
+                # hostile record content: every entry through the full unicast scan of several hosts (that path parses
+                # a host's records only at the end, outside every per-datagram barrier), a share through multicast
+                if ctx.thorough:
+                    mine = [c for i, c in enumerate(contents) if ndev == (1 + (i + rep) % 4 if mode == "u" else 2 + (i + rep) % 2)]
+                else:
+                    mine = [c for i, c in enumerate(contents) if rep == 0 and (ndev == 2 + i % 2 if mode == "u" else ndev == 2 and i % 3 == 0)]
+                for payload in payloads + mine:
                     if payload[0].startswith("txt-string") and (ndev + rep) % 2 and not ctx.thorough:
                         continue
                     if stuck >= 3:
